@@ -80,6 +80,7 @@ type HarnessResult struct {
 	Wall          time.Duration
 	MaxDepth      int
 	Hangs         []Violation
+	errors        int
 }
 
 type Explorer struct {
@@ -135,6 +136,23 @@ func Explore(prog *ssa.Program, fn *ssa.Function, cfg Config, mkInterp func() *I
 	e.rng = rand.New(rand.NewSource(cfg.seed))
 	e.stack = []Job{{}}
 	start := time.Now()
+	stopProg := make(chan struct{})
+	if os.Getenv("VERIF_PROGRESS") != "" {
+		go func() {
+			tk := time.NewTicker(5 * time.Second)
+			defer tk.Stop()
+			for {
+				select {
+				case <-stopProg:
+					return
+				case <-tk.C:
+					e.mu.Lock()
+					fmt.Fprintf(os.Stderr, "   progress: paths=%d queue=%d decisions=%d instrs=%d\n", e.res.Paths, len(e.stack), e.res.Decisions, e.res.Instructions)
+					e.mu.Unlock()
+				}
+			}
+		}()
+	}
 	var wg sync.WaitGroup
 	for w := 0; w < cfg.workers; w++ {
 		wg.Add(1)
@@ -145,6 +163,7 @@ func Explore(prog *ssa.Program, fn *ssa.Function, cfg Config, mkInterp func() *I
 	}
 	wg.Wait()
 	e.res.Wall = time.Since(start)
+	close(stopProg)
 	return e.res
 }
 
@@ -171,6 +190,10 @@ func (e *Explorer) worker(w int, mkInterp func() *Interp) {
 				return
 			}
 			it.sol = sol
+			if p := os.Getenv("VERIF_SMTLOG"); p != "" && w == 0 {
+				f, _ := os.Create(p)
+				sol.log = f
+			}
 		}
 		e.runPath(it, job)
 	}
@@ -198,6 +221,11 @@ func (e *Explorer) runPath(it *Interp, job Job) {
 	if len(it.tt.tab) > 2_000_000 {
 		// keep memory bounded: restart term table + solver between paths
 		it.resetTerms()
+	}
+	it.pathsSinceRestart++
+	if it.pathsSinceRestart >= 64 {
+		it.pathsSinceRestart = 0
+		it.sol.Restart()
 	}
 	it.sol.Push()
 	outcome := "done"
@@ -276,8 +304,13 @@ func (e *Explorer) runPath(it *Interp, job Job) {
 	case "deadlock":
 		r.PathsDone++
 	case "error":
+		r.errors++
 		if len(r.Inconclusive) < 20 {
 			r.Inconclusive = append(r.Inconclusive, detail+" [path "+pathString(ds)+"]")
+		}
+		if r.errors >= 40 && !e.stopAll {
+			e.stopAll = true
+			r.Inconclusive = append(r.Inconclusive, "exploration stopped after 40 engine errors")
 		}
 	}
 	if p.unknowns > 0 && len(r.Inconclusive) < 20 {
@@ -364,7 +397,7 @@ func (it *Interp) anyModel() Model {
 		it.lastModel = p.model
 		return p.model
 	}
-	r, m := it.sol.Check(nil, true)
+	r, m := it.check(nil, true)
 	if r == Sat {
 		p.model = m
 		it.lastModel = m
